@@ -12,6 +12,8 @@ INSECURE = ("./", "..", "//", ".\\", "\\\\", "\0")
 
 
 def _lines(path):
+    if not os.path.isfile(path):
+        return None          # (nothing to read lines from: absent, a directory, a FIFO -- which an open would wait on)
     try:
         with open(path, "r", errors="surrogateescape") as f:
             return f.readlines()
@@ -28,6 +30,8 @@ def enc_lines(ls):
 
 
 def html_title(path):
+    if not os.path.isfile(path):
+        return None
     try:
         data = open(path, "rb").read().decode("utf-8", "replace")
     except OSError:
